@@ -467,13 +467,13 @@ def corpus():
 
 def cases(rng, tier):
     out = []
-    nh = 30 if tier == "quick" else 1200
+    nh = int(os.environ.get("C02_NH", 60 if tier == "quick" else 1500))
     nq = 12
     for h in range(nh):
         hist = gen_history(rng.fork(f"h{h}"), f"h{h}")
         for qi, q in enumerate(gen_queries(rng.fork(f"q{h}"), hist, nq)):
             out.append({"kind": "engine", "hist": hist, "q": q, "show": show_case(hist, q)})
-    nf = 1500 if tier == "quick" else 150000
+    nf = int(os.environ.get("C02_NF", 3000 if tier == "quick" else 200000))
     r2 = rng.fork("fn")
     for i in range(nf):
         hist = gen_history(r2, "f")
